@@ -174,6 +174,8 @@ func runC06(c *report.Ctx) {
 	ruleNoTxUnderUpdate(c, 8)
 	ruleMemoryTipFollowsPersistedTip(c) // after a restart the in-memory tip is the persisted one
 	ruleTaskQueuedAfterDurableMarker(c)
+	ruleRollbackBeforeCursorMoves(c)
+	ruleStatusRowsOneDecoder(c) // the start-up scan resumes what the status rows say
 
 	c.Rule("step-table", "each logical step performs all its mutations and its progress marker inside one Update closure", 9)
 	upd := fn(c, pkgDB, "", "Update")
